@@ -22,6 +22,7 @@ func propC16(c *Ctx) {
 	c.ruleMarshalPurity("C16-MARSHAL-PURITY")
 	c.ruleOnceErrPersists("C16-ONCE-STATE")
 	c.ruleOnceNotAroundPanic("C16-ONCE-NO-PANIC")
+	c.ruleDepASTReadOnly("C16-DEP-AST-READ-ONLY")
 	c.ruleDepCalls("C16-DEP-CALLS")
 	c.ruleGlobalState("C16-GLOBAL-STATE")
 }
@@ -479,4 +480,96 @@ func (c *Ctx) ruleOnceNotAroundPanic(rule string) {
 	if n == 0 {
 		r.Undecided(rule, "sites", "no sync.Once.Do closure found", "")
 	}
+}
+
+// ruleDepASTReadOnly: the AST that jsight-schema-core hands out (GetAST) is shared: the JSON catalog (lazily, inside a
+// Once) and the OpenAPI export both read the same nodes and the same rule collections behind their pointers. The
+// module must only read them: a mutating method of one of the dependency's AST collections, called anywhere in the
+// library, makes one serialiser change what the other one (or a later call) sees.
+func (c *Ctx) ruleDepASTReadOnly(rule string) {
+	r := c.R
+	r.Rule(rule, "no library function calls a mutating method (Set, SetToTop, Update, Delete, Filter, Map) of an AST collection type of jsight-schema-core (…ASTNodes): the schema AST is shared between the serialisers and is only read (Each, EachSafe, Get, GetValue, Has, Len, Find)", 3)
+	mut := map[string]bool{"Set": true, "SetToTop": true, "Update": true, "Delete": true, "Filter": true, "Map": true}
+	reads := 0
+	for _, f := range c.libFns() {
+		pk := f.Pkg
+		ast.Inspect(f.Decl.Body, func(nd ast.Node) bool {
+			call, ok := nd.(*ast.CallExpr)
+			if !ok {
+				return true
+			}
+			cal := callee(pk, call)
+			if cal == nil || cal.Pkg() == nil || !strings.HasPrefix(cal.Pkg().Path(), prog.DepPath) {
+				return true
+			}
+			sig := cal.Type().(*types.Signature)
+			if sig.Recv() == nil || !strings.Contains(namedType(sig.Recv().Type()), "ASTNodes") {
+				return true
+			}
+			if !mut[cal.Name()] {
+				reads++
+				return true
+			}
+			// a collection the function has just made for itself is its own
+			sel, _ := ast.Unparen(call.Fun).(*ast.SelectorExpr)
+			if sel != nil && c.mapIsCallLocalCtor(f, sel.X) {
+				return true
+			}
+			key := fmt.Sprintf("%s | %s", f.Name(), exprString(call.Fun))
+			r.Bad(rule, key, "a collection of the shared schema AST is changed: the other serialiser (and every later call) reads the changed AST", c.pos(call.Pos()))
+			return true
+		})
+	}
+	if reads >= 3 {
+		r.Ok(rule, "reads", fmt.Sprintf("%d calls of reading methods of the dependency's AST collections, no mutating one", reads), "")
+		r.Ok(rule, "scope", "every library function scanned", "")
+		r.Ok(rule, "mutators", "Set, SetToTop, Update, Delete, Filter, Map", "")
+	} else {
+		r.Undecided(rule, "reads", fmt.Sprintf("only %d reads of the dependency's AST collections found: the rule no longer sees where the AST is used", reads), "")
+	}
+}
+
+// mapIsCallLocalCtor: the expression is a local variable defined in f from a constructor call or a composite literal.
+func (c *Ctx) mapIsCallLocalCtor(f *Fn, e ast.Expr) bool {
+	id, ok := ast.Unparen(e).(*ast.Ident)
+	if !ok {
+		return false
+	}
+	obj := f.Pkg.TypesInfo.Uses[id]
+	if obj == nil || paramIndexOf(f, id) != -1 {
+		return false
+	}
+	n, fresh := 0, true
+	ast.Inspect(f.Decl.Body, func(nd ast.Node) bool {
+		as, isAs := nd.(*ast.AssignStmt)
+		if !isAs {
+			return true
+		}
+		for i, l := range as.Lhs {
+			lid, isId := ast.Unparen(l).(*ast.Ident)
+			if !isId || (f.Pkg.TypesInfo.Defs[lid] != obj && f.Pkg.TypesInfo.Uses[lid] != obj) {
+				continue
+			}
+			n++
+			if i >= len(as.Rhs) {
+				fresh = false
+				continue
+			}
+			switch x := ast.Unparen(as.Rhs[i]).(type) {
+			case *ast.CompositeLit:
+			case *ast.UnaryExpr:
+				if _, isLit := ast.Unparen(x.X).(*ast.CompositeLit); !isLit || x.Op != token.AND {
+					fresh = false
+				}
+			case *ast.CallExpr:
+				if cal := callee(f.Pkg, x); cal == nil || !strings.HasPrefix(cal.Name(), "New") && !strings.HasPrefix(cal.Name(), "new") && cal.Name() != "make" {
+					fresh = false
+				}
+			default:
+				fresh = false
+			}
+		}
+		return true
+	})
+	return n > 0 && fresh
 }
